@@ -855,6 +855,9 @@ func (c *Conn) flush() error {
 	}
 
 	if len(c.writeList) == 0 {
+		// Nothing to flush: do not keep the writing event (a dial that
+		// connected at once was registered with it).
+		c.resetRead()
 		return nil
 	}
 
